@@ -1,5 +1,6 @@
 import ShootVerif.Proofs.CtorMain
 import ShootVerif.Model.TParams
+import ShootVerif.Proofs.CtorSelect
 /-!
 C02 — `NewT(args…)` stores every constructor parameter in exactly the field it is named after
 (including fields promoted from embedded structs, built as nested literals, pointer embeds
@@ -120,6 +121,14 @@ theorem C02_value_at_path (t : Tree) (hwf : WF t = true) :
       cases hnm : nameMap (hasNewTop t) (flatten t) l.info.name <;>
         by_cases htop : l.top <;> by_cases hd : l.info.defv = "" <;>
         simp [entryExpr, mkField, hnm, hsh, htop, hd, evalExpr, genShadow]
+
+/-- "the field it is named after" = "the path the literal wrote": a leaf that no shallower member hides
+    and that is the only member of its name at its depth is exactly what Go's selector `T.name`
+    resolves to; so reading `NewT(args).name` yields the value `C02_value_at_path` puts at that path -/
+theorem C02_select (t : Tree) (l : Leaf) (hl : l ∈ leavesTop t)
+    (hvis : goShadowed t l.depth l.info.name = false)
+    (huniq : ((members 0 t).filter (fun m => m.1 = l.info.name ∧ m.2 = l.depth)).length = 1) :
+    selectPath t l.info.name = some l.path := select_of_visible t l hl hvis huniq
 
 /-- every embedded struct on an embed path of the type is present in the literal, so embedded
     pointers are allocated -/
